@@ -4,6 +4,7 @@ package nflog
 
 import (
 	"bytes"
+	"encoding/binary"
 	"fmt"
 	"sort"
 	"strings"
@@ -486,6 +487,10 @@ func TestVerifC11Nflog(t *testing.T) {
 				R.Violate("loader-panics", fmt.Sprintf("prefix of %d bytes: %v", i, pan), map[string]any{"rerun": true, "part": "nflog-loader", "prefix": i})
 				continue
 			}
+			if derr == nil && !c11AtRecordBoundary(snap, i) && R.NViolations < 10 {
+				// a cut inside a record is a torn file; taking the records before it for the whole state silently loses the rest
+				R.Violate("torn-snapshot-accepted-as-a-smaller-state", fmt.Sprintf("prefix of %d bytes (of %d) ends inside a record and is loaded without an error, as %d records", i, len(snap), len(got)), map[string]any{"rerun": true, "part": "nflog-loader", "prefix": i})
+			}
 			if derr == nil {
 				for k, e := range got {
 					if !proto.Equal(e, st[k]) {
@@ -539,4 +544,21 @@ func TestVerifC11Nflog(t *testing.T) {
 		R.Sample(map[string]any{"snapshot_bytes": len(snap)})
 		R.Write()
 	}
+}
+
+// c11AtRecordBoundary: the snapshot is a sequence of length-prefixed records; n is a boundary if it is 0, the length
+// of the file, or the end of one of the records (computed from the length prefixes, without the code under test).
+func c11AtRecordBoundary(snap []byte, n int) bool {
+	off := 0
+	for off < len(snap) {
+		if off == n {
+			return true
+		}
+		l, w := binary.Uvarint(snap[off:])
+		if w <= 0 {
+			return false
+		}
+		off += w + int(l)
+	}
+	return off == n
 }
